@@ -517,6 +517,61 @@ def enum_subprocess(tier):
         yield {'tool': 'cnfgen', 'args': a, 'stdin': '2 2\n1 0\n1 1\n' if 'matrix' in a else kth, 'rseed': 0}
 
 
+# ---------------------------------------------------------------------------
+# the process environment: text encoding of the standard streams, locale; legal non-ASCII arguments
+
+ENVS = {'default': {}, 'stdout-ascii': {'PYTHONIOENCODING': 'ascii'}, 'stdout-latin1': {'PYTHONIOENCODING': 'latin-1'},
+        'C-locale': {'LC_ALL': 'C', 'LANG': 'C', 'PYTHONUTF8': '0', 'PYTHONCOERCECLOCALE': '0'}, 'utf8-mode': {'PYTHONUTF8': '1', 'LC_ALL': 'C'}}
+FULLWIDTH = str.maketrans('0123456789', '\uff10\uff11\uff12\uff13\uff14\uff15\uff16\uff17\uff18\uff19')
+
+
+def run_environment(case):
+    tool, stdin = case['tool'], case.get('stdin')
+    d = tempfile.mkdtemp(prefix="c18e_")
+    try:
+        for name, text in case.get('files', {}).items():
+            with open(os.path.join(d, name), 'w', encoding='utf-8') as f:
+                f.write(text)
+        args = list(case['args'])
+        pre = None
+        cwd0 = os.getcwd()
+        os.chdir(d)          # judge() looks at the -o file relative to the working directory of the tool
+        try:
+            r = cli.run_subprocess(tool, args, stdin, cwd=d, extra_env=ENVS[case['env']])
+            what = "(process, environment {}) {} {}".format(ENVS[case['env']] or 'default', tool, ' '.join(args))
+            verdict = judge(tool, args, r, what, pre)
+        finally:
+            os.chdir(cwd0)
+    finally:
+        shutil.rmtree(d, ignore_errors=True)
+    nonascii = any(ord(ch) > 127 for a in args for ch in a) or bool(stdin and any(ord(ch) > 127 for ch in stdin))
+    return Outcome(labels=[tool, 'env:' + case['env'], verdict] + (['non-ascii-argument'] if nonascii else []), nontrivial=nonascii or case['env'] != 'default')
+
+
+def enum_environment(tier):
+    kth = '3\n1 : 0\n2 : 0\n3 : 1 2 0\n'
+    cmds = []
+    for opts in ([], ['-q'], ['-of', 'opb'], ['-of', 'latex'], ['-o', 'out.cnf'], ['-o', 'out.opb'], ['-o', 'out.tex'], ['-o', 'out-\u00fc\u03b1.cnf'], ['-v', '--varnames']):
+        cmds.append(('cnfgen', opts + ['php', '3', '2'], None, {}))
+        cmds.append(('cnfgen', opts + ['php', '3'.translate(FULLWIDTH), '2'.translate(FULLWIDTH)], None, {}))
+        cmds.append(('cnfgen', opts + ['kcolor', '2', 'kthlist', 'grafo-\u00fc.kthlist'], None, {'grafo-\u00fc.kthlist': kth}))
+        cmds.append(('cnfgen', opts + ['op', '3', '-T', 'xor', '2'.translate(FULLWIDTH)], None, {}))
+    for opts in ([], ['-q'], ['-of', 'latex'], ['-o', 'out.opb'], ['-o', 'out-\u00e9.opb']):
+        cmds.append(('pbgen', opts + ['php', '3'.translate(FULLWIDTH), '2']  , None, {}))
+        cmds.append(('pbgen', opts + ['matching', 'kthlist', 'grafo-\u00fc.kthlist'], None, {'grafo-\u00fc.kthlist': kth}))
+    for fl in ([], ['-q'], ['-p', '-v', '-c']):
+        cmds.append(('cnfshuffle', ['--seed', '3'] + fl, 'c commento \u00e8 \u03b1\np cnf 3 2\n1 -3 0\n2 0\n', {}))
+    cmds.append(('kthlist2pebbling', [], 'c grafo \u00fc\n' + kth, {}))
+    cmds.append(('kthlist2pebbling', ['-i', 'grafo-\u00fc.kthlist'], None, {'grafo-\u00fc.kthlist': kth}))
+    i = 0
+    for env in ENVS:
+        for tool, args, stdin, files in cmds:
+            i += 1
+            if tier == 'quick' and i % 4 != (1 if env != 'stdout-ascii' else i % 4) and not (env == 'stdout-ascii' and i % 2):
+                continue
+            yield {'tool': tool, 'args': args, 'stdin': stdin, 'files': files, 'env': env}
+
+
 TOOLS = ['cnfgen', 'pbgen', 'cnfshuffle', 'kthlist2pebbling']
 
 SUBCHECKS = [
@@ -526,4 +581,7 @@ SUBCHECKS = [
     SubCheck('subprocess', run_subprocess_case, strategy=strat_case, enumerate_cases=enum_subprocess, quick=32, thorough=2500,
              rule="the same generator, each command line run as a real process (python -c 'from <tool module> import main; main()') and compared with the in-process verdict",
              required_labels=['subprocess']),
+    SubCheck('environment', run_environment, enumerate_cases=enum_environment,
+             rule="real processes under five environments (default, stdout limited to ASCII, to latin-1, C locale without UTF-8 mode, UTF-8 mode) x command lines of the four tools that are legal but not ASCII (numbers typed with fullwidth digits, graph files and -o files with accented / Greek names, comments with accented letters on stdin), every output format, to stdout and to files (quick: a quarter, half under ASCII stdout); same oracle as 'hostile' on the process; non-trivial: a non-ASCII argument or a non-default environment",
+             required_labels=['env:stdout-ascii', 'env:C-locale', 'non-ascii-argument', 'success']),
 ]
